@@ -20,6 +20,7 @@ mod udp_sys;
 mod http_sys;
 mod ws_sys;
 mod watchdog;
+mod udp_conc;
 
 use std::collections::HashMap;
 
@@ -151,6 +152,7 @@ fn main() {
         "http-sys" => http_sys::run(&args),
         "ws-sys" => ws_sys::run(&args),
         "watchdog" => watchdog::run(&args),
+        "udp-conc" => udp_conc::run(&args),
         "watchdog-case" => watchdog::case_child(&args),
         "ws-sys-case" => ws_sys::case_child(&args),
         "http-tracker" => http_sys::tracker_child(&args),
